@@ -28,6 +28,14 @@ def layerOf : String → Option Layer
   | "lpd" => some .loggerProvider
   | "mpc" => some .meterProvider
   | "mpv" => some .meterProvider
+  -- … and through the factories (f: the provider's / multi processor's factory, g: over the context's factory)
+  | "tpf" => some .tracerProvider
+  | "tpg" => some .tracerProvider
+  | "lpf" => some .loggerProvider
+  | "lpg" => some .loggerProvider
+  | "mpf" => some .meterProvider
+  | "mpg" => some .meterProvider
+  | "mlf" => some .multiLog
   | "ml" => some .multiLog
   | "lp" => some .loggerProvider
   | "mp" => some .meterProvider
